@@ -22,7 +22,7 @@ RULE = (
     "become runnable at the same instant and the schedule decides who goes first, at line granularity) and 'after start' "
     "are all produced). Time is Engine DET's fake clock; threading.Timer, Thread, Condition, Event and the executor inside "
     "reactivex are the cooperative replacements of vlib/det.py, every timer/loop/worker thread is a controlled logical thread. "
-    "det-enum: every schedule with <=1 (quick) / <=2 (thorough) preemptions of 8 fixed small programs x 5 scheduler kinds; "
+    "det-enum: every schedule with <=1 (quick) / <=2 (thorough) preemptions of 11 fixed small programs x 5 scheduler kinds; "
     "det-gen: generated programs (1-5 operations or schedule/sleep/dispose gadgets, optional cancelling thread) with <=3 drawn "
     "preemption points; "
     "imm-enum / imm: ImmediateScheduler on one thread (DET free mode), all operation lists up to 3 over a small alphabet + "
@@ -30,7 +30,9 @@ RULE = (
     "Oracle over the event log (call/ret of each schedule call, start/end of each action, cancel issue/return; thread id and "
     "fake clock each): (1) start clock >= due, due = call clock + max(0, d) for relative, the given datetime for absolute, "
     "call clock for schedule(); (2) at most one start per action; (3) an action whose dispose() RETURNED while the clock was "
-    "still < due never starts; (4) at quiescence of a complete run every action whose schedule call returned and whose "
+    "still < due never starts; (3b) (from the title 'never ... after cancellation', for cancellations that certainly "
+    "precede the loop's cancel test) an action does not start on a thread after an earlier action finished on that thread "
+    "if its dispose() had returned before that earlier action finished; (4) at quiescence of a complete run every action whose schedule call returned and whose "
     "disposable was never disposed has run exactly once; (5) no deadlock, no escaped exception. ImmediateScheduler: a call "
     "with due <= now runs the action inline (start and end between call and return, same thread), a call with a positive "
     "delay raises WouldBlockException and the action never starts. "
@@ -148,6 +150,7 @@ def analyse(world, complete=True):
     timed = [False] * n
     facts = set()
     pending = {}
+    ends = []
     cancels = []  # (issue idx, issue clock, return idx, return clock, target)
     for i, (kind, sid, tid, clk) in enumerate(rec):
         if kind == "call":
@@ -175,6 +178,7 @@ def analyse(world, complete=True):
                 facts.add("timed-ran")
         elif kind == "end":
             end[sid] = i
+            ends.append(i)
         elif kind == "cx":
             pending[(sid, tid)] = (i, clk)
         elif kind == "cr":
@@ -187,6 +191,10 @@ def analyse(world, complete=True):
             facts.add("cancel-before-due")
         elif start[x] is not None and start[x] < ci:
             facts.add("cancel-after-start")
+        elif start[x] is not None and any(ri < e < start[x] and rec[e][2] == rec[start[x]][2] for e in ends):
+            # (3b) dispose() returned, THEN an earlier action finished on the thread that runs x, THEN x started there:
+            # the loop's cancel test for x lies after that earlier action, so it must have seen the cancellation
+            return ("cancelled-ran", f"action #{x} {meta[x]} started at event {start[x]} on thread {rec[start[x]][2]} although its dispose() had returned (event {ri}) before an earlier action finished on that thread"), facts
         elif timed[x] and cclk == due[x]:
             # issued at the due instant while the action has not started: its timer / loop thread has been made runnable
             # by the clock reaching `due` and is somewhere between waking up and invoking
@@ -233,9 +241,13 @@ def run_det(case):
 
 def run_imm(case):
     """ImmediateScheduler, one thread, free mode."""
-    with schedrun.quiet_rx_log(), schedrun.patched(), schedrun.watchdog():
-        w = World({"sk": "immediate", "threads": case["threads"]})
-        w.run_ops(case["threads"][0], w.ids[0], w.sched)
+    w = None
+    try:
+        with schedrun.quiet_rx_log(), schedrun.patched(), schedrun.watchdog():
+            w = World({"sk": "immediate", "threads": case["threads"]})
+            w.run_ops(case["threads"][0], w.ids[0], w.sched)
+    except schedrun.Wedged as e:
+        return FAIL("no-return|immediate", f"{e}; log so far={_fmt(w.rec) if w else ''}; case={case}")
     rec, meta = w.rec, w.meta
     cl = set()
     open_calls = []
@@ -290,6 +302,11 @@ def _det_programs():
     yield [[_S("now", 0, [_S("rel", 2)]), ["w", 1], ["x", 1]]]  # nested schedule on the handed scheduler, cancelled before due
     yield [[_S("rel", 3), ["w", 1], _S("now"), _S("abs", 2)]]  # new work arrives while the loop sleeps
     yield [[_S("rel", 1, [["x", 1]]), _S("rel", 2)], [["w", 1], ["x", 0]]]  # an action cancels a later one; dispose after start
+    # two items due together (one batch of an event loop): the first action sleeps, then cancels the second / a second
+    # thread cancels it meanwhile / the same with nested items on the scheduler handed to the action (NewThread, pool)
+    yield [[_S("rel", 1, [["w", 1], ["x", 1]]), _S("rel", 1)]]
+    yield [[_S("rel", 1, [["w", 2]]), _S("rel", 1)], [["w", 2], ["x", 1]]]
+    yield [[_S("now", 0, [_S("rel", 1, [["w", 1], ["x", 2]]), _S("rel", 1)])]]
 
 
 def _det_enum(tier):
